@@ -92,7 +92,7 @@ struct MutGen<'a> { seeds: &'a [Seed], rng: Rng, thorough: bool }
 impl<'a> MutGen<'a> {
     fn opts(&mut self, seed: &Seed) -> (Vec<&'static str>, &'static str) {
         // image extraction for ANM files that carry a texture
-        if seed.tool == "truanm" && !find_all(&seed.bytes, b"THTX").is_empty() && self.rng.chance(1, 2) {
+        if seed.tool == "truanm" && !find_all(&seed.bytes, b"THTX").is_empty() && self.rng.chance(1, 3) {
             return (vec![], "extract");
         }
         if seed.flags.iter().any(|f| f == "--mission") { return (vec![], "decompile"); }
@@ -111,7 +111,11 @@ impl<'a> MutGen<'a> {
         let b = &seed.bytes; let n = b.len();
         let mut out = vec![];
         // truncations
-        let mut cuts: Vec<usize> = if self.thorough || n <= per_seed / 3 { (0..n).collect() } else {
+        let mut cuts: Vec<usize> = if (self.thorough && n <= 3000) || n <= per_seed / 3 { (0..n).collect() } else if self.thorough {
+            let mut c: Vec<usize> = (0..1024).collect();
+            for _ in 0..1500 { c.push(self.rng.below(n as u64) as usize); }
+            c.push(n - 1); c.sort(); c.dedup(); c
+        } else {
             let mut c: Vec<usize> = (0..n.min(24)).collect();
             let want = per_seed / 3;
             for _ in 0..want { c.push(self.rng.below(n as u64) as usize); }
@@ -126,7 +130,8 @@ impl<'a> MutGen<'a> {
                 let cur = if wide { get32(b, off) } else { get32(b, off) & 0xffff };
                 let mut vals: Vec<u32> = vec![0, 1, 2, 3, 5, 7, cur.wrapping_add(1), cur.wrapping_sub(1), cur.wrapping_mul(2), cur / 2, 0xFFFF];
                 if wide { vals.extend_from_slice(&[0xFFFF_FFFF, 0x7FFF_FFFF, 0x8000_0000, cur.wrapping_add(3), 0x4000_0000]); }
-                for v in vals {
+                for (vi, v) in vals.into_iter().enumerate() {
+                    if !self.thorough && (vi + off + si) % 4 != 0 { continue; }
                     let mut m = b.clone();
                     if wide { put32(&mut m, off, v) } else { put16(&mut m, off, v) }
                     let mut mu = self.mk(si, "thtx", format!("thtx.{}@{}={:#x}", name, off, v), m);
@@ -246,8 +251,18 @@ fn generate(seeds: &[Seed], budget: usize, tier: &str, rng: &mut Rng) -> Vec<Mut
         }
         if seeds[si].tool == "truanm" { let mut m = g.mk(si, "seed", "seed".into(), seeds[si].bytes.clone()); m.action = "extract"; m.opts = vec![]; out.push(m); }
     }
+    // relative cost of one run (debug build): the ECL core mapfiles and image encoding dominate
+    let cost = |s: &Seed| -> usize { match s.tool.as_str() { "truecl" => 8, "truanm" => if s.bytes.len() > 1500 { 6 } else { 3 }, _ => 1 } };
     let per_seed = if thorough { usize::MAX } else { (budget / seeds.len().max(1)) / 2 };
-    for si in 0..seeds.len() { out.extend(g.systematic(si, per_seed.min(90))); }
+    for si in 0..seeds.len() { let c = cost(&seeds[si]); out.extend(g.systematic(si, (per_seed.min(90) / if thorough { 1 } else { c.min(4) }).max(12))); }
+    let mut lottery: Vec<usize> = vec![];
+    for si in 0..seeds.len() { for _ in 0..(24 / cost(&seeds[si])) { lottery.push(si); } }
+    if thorough && out.len() > budget * 9 / 20 {
+        // keep the systematic part below ~45% of the budget: every k-th (all unmodified seeds stay)
+        let k = (out.len() * 20 / (budget * 9).max(1)).max(2);
+        let mut i = 0usize;
+        out.retain(|m| { i += 1; m.kind == "seed" || i % k == 0 });
+    }
     if thorough {
         let room = budget.saturating_sub(out.len()) / 2;
         let total_words: usize = seeds.iter().map(|s| s.bytes.len() / 2 * 18 + s.bytes.len() / 4 * 32).sum();
@@ -255,7 +270,7 @@ fn generate(seeds: &[Seed], budget: usize, tier: &str, rng: &mut Rng) -> Vec<Mut
         for si in 0..seeds.len() { out.extend(g.word_sweep(si, stride)); }
     }
     while out.len() < budget {
-        let si = g.rng.below(seeds.len() as u64) as usize;
+        let si = lottery[g.rng.below(lottery.len() as u64) as usize];
         out.push(g.random(si));
     }
     out
@@ -440,7 +455,9 @@ fn run_inproc(seed: &Seed, bytes: &[u8], action: &str, opts: &[&str], xdir: &Pat
             ("truanm", "extract") => {
                 let anm = match truth::AnmFile::read_from_stream(&mut reader, game, true) { Ok(a) => a, Err(_) => return false };
                 let _ = std::fs::remove_dir_all(xdir);
-                return anm.extract_images(xdir, &truth.fs()).is_ok();
+                let ok = anm.extract_images(xdir, &truth.fs()).is_ok();
+                if !ok && std::env::var("C16_DEBUG").is_ok() { eprintln!("{}", truth.get_captured_diagnostics().unwrap_or_default()); }
+                return ok;
             },
             ("truanm", _) => {
                 let anm = match truth::AnmFile::read_from_stream(&mut reader, game, false) { Ok(a) => a, Err(_) => return false };
@@ -500,13 +517,13 @@ fn run_all_inproc(seeds: &[Seed], muts: Vec<Mutant>) {
 fn z(i: i64) -> String { if i < 0 { format!("({})", i) } else { format!("{}", i) } }
 fn coq_bytes(b: &[u8]) -> String { format!("[{}]", b.iter().map(|x| x.to_string()).collect::<Vec<_>>().join(";")) }
 
-/// A container around a raw script for each instruction format, built from a compiled seed: the script is the
-/// tail of the file, so `prefix ++ script` is read by the real reader and the script comes back as RawInstrs.
+/// A container around a raw script for each instruction format, built from a compiled seed: the (last) script
+/// is the tail of the file, so `prefix ++ script` is read by the real reader and the script comes back as RawInstrs.
 struct Wrapper { fmt: &'static str, seed_name: &'static str, tool: &'static str, game: &'static str }
 const WRAPPERS: [Wrapper; 4] = [
     Wrapper { fmt: "FStd06", seed_name: "std06.g6.trustd.bin", tool: "trustd", game: "6" },
     Wrapper { fmt: "FStd10", seed_name: "std12.g12.trustd.bin", tool: "trustd", game: "12" },
-    Wrapper { fmt: "FMsg", seed_name: "msg06.g6.trumsg.bin", tool: "trumsg", game: "6" },
+    Wrapper { fmt: "FMsg", seed_name: "end10.g10.trumsg.bin", tool: "trumsg", game: "10" },
     Wrapper { fmt: "FAnm07", seed_name: "anm12_ctl.g12.truanm.bin", tool: "truanm", game: "12" },
 ];
 
@@ -525,12 +542,40 @@ fn read_script_via(w: &Wrapper, prefix: &[u8], script: &[u8]) -> String {
         let mut reader = truth::io::BinReader::from_reader(emitter, "in.bin", std::io::Cursor::new(bytes.clone()));
         match w.tool {
             "trustd" => truth::StdFile::read_from_stream(&mut reader, game).ok().map(|f| f.script.instrs),
-            "trumsg" => truth::MsgFile::read_from_stream(&mut reader, game, truth::LanguageKey::Msg).ok().and_then(|f| f.scripts.values().next().map(|s| s.instrs.clone())),
-            "truanm" => truth::AnmFile::read_from_stream(&mut reader, game, false).ok().and_then(|f| f.entries.get(0).and_then(|e| e.scripts.values().next().map(|s| s.script.instrs.clone()))),
+            "trumsg" => truth::MsgFile::read_from_stream(&mut reader, game, truth::LanguageKey::End).ok().and_then(|f| f.scripts.values().last().map(|s| s.instrs.clone())),
+            "truanm" => truth::AnmFile::read_from_stream(&mut reader, game, false).ok().and_then(|f| f.entries.get(0).and_then(|e| e.scripts.values().last().map(|s| s.script.instrs.clone()))),
             _ => None,
         }
     });
     match r { Ok(Some(is)) => format!("(IOk {})", coq_instrs(&is)), Ok(None) => "IErr".into(), Err(_) => "IPanic".into() }
+}
+
+const LAB_MAPFILE: &str = "!stdmap\n!ins_signatures\n0 SSS\n1 SSS\n4 ot_\n!ins_intrinsics\n4 Jmp()\n";
+
+/// decompile a TH08 STD file whose script is the given (time, opcode, 3 dwords) list, with LAB_MAPFILE
+fn run_lab(prefix: &[u8], instrs: &[(i32, u16, [i32; 3])]) -> &'static str {
+    let mut bytes = prefix.to_vec();
+    for (t, op, a) in instrs {
+        bytes.extend_from_slice(&t.to_le_bytes()); bytes.extend_from_slice(&op.to_le_bytes()); bytes.extend_from_slice(&12u16.to_le_bytes());
+        for x in a { bytes.extend_from_slice(&x.to_le_bytes()); }
+    }
+    for _ in 0..5 { bytes.extend_from_slice(&(-1i32).to_le_bytes()); }
+    let game = truth::Game::Th08;
+    let r = catch_site(|| -> bool {
+        let mut scope = truth::Builder::new().capture_diagnostics(true).build();
+        let mut truth = scope.truth();
+        if truth.apply_mapfile_str(LAB_MAPFILE, game).is_err() { return false; }
+        let emitter = truth.ctx().emitter;
+        let mut truth = match truth.validate_defs() { Ok(t) => t, Err(_) => return false };
+        let mut reader = truth::io::BinReader::from_reader(emitter, "in.std", std::io::Cursor::new(bytes.clone()));
+        let f = match truth::StdFile::read_from_stream(&mut reader, game) { Ok(a) => a, Err(_) => return false };
+        match truth.decompile_std(game, &f, &truth::DecompileOptions::new()) {
+            Err(_) => false,
+            Ok(ast) => { let mut buf: Vec<u8> = vec![]; let ok = truth::Formatter::new(&mut buf).fmt(&ast).is_ok(); ok },
+        }
+    });
+    if let Err((site, msg, _)) = &r { if std::env::var("C16_DEBUG").is_ok() { eprintln!("LAB panic at {}: {}", site, msg); } }
+    match r { Ok(true) => "(IOk tt)", Ok(false) => "IErr", Err(_) => "IPanic" }
 }
 
 fn corr(seeds: &[Seed], n: usize, rng: &mut Rng) {
@@ -538,15 +583,15 @@ fn corr(seeds: &[Seed], n: usize, rng: &mut Rng) {
     // (1) script reader
     for w in WRAPPERS.iter() {
         let seed = match seeds.iter().find(|s| s.name == w.seed_name) { Some(s) => s, None => { println!("NOTE\twrapper seed {} missing", w.seed_name); continue; } };
-        // where does the (single / last) script start?  std: script_offset at 8; msg: first table entry; anm: last script offset
         let b = &seed.bytes;
+        // where does the last script start?  std: script_offset at 8; msg: first (only) table entry; anm: last entry of the script table
         let start = match w.tool {
             "trustd" => get32(b, 8) as usize,
             "trumsg" => get32(b, 4) as usize,
-            "truanm" => { // entry header (new format): script table follows the sprite offsets
-                let nsprites = get32(b, 0) as usize; let nscripts = get32(b, 4) as usize;
+            "truanm" => {
+                let nsprites = (get32(b, 4) & 0xffff) as usize; let nscripts = (get32(b, 4) >> 16) as usize;
                 if nscripts == 0 { continue; }
-                get32(b, 0x40 + 4 * nsprites + 4) as usize
+                get32(b, 0x40 + 4 * nsprites + 8 * (nscripts - 1) + 4) as usize
             },
             _ => continue,
         };
@@ -556,36 +601,42 @@ fn corr(seeds: &[Seed], n: usize, rng: &mut Rng) {
         for k in 0..orig.len() { scripts.push((orig[..k].to_vec(), "trunc")); }
         for _ in 0..n {
             let mut m = orig.to_vec();
-            match rng.below(5) {
+            match rng.below(6) {
                 0 => { let k = (rng.below(m.len().max(1) as u64) as usize) / 2 * 2; put16(&mut m, k, *rng.pick(&W16)); scripts.push((m, "word16")); },
                 1 => { let k = (rng.below(m.len().max(1) as u64) as usize) / 4 * 4; put32(&mut m, k, *rng.pick(&W32)); scripts.push((m, "word32")); },
                 2 => { let k = rng.below(m.len().max(1) as u64) as usize; if k < m.len() { m[k] = rng.next_u64() as u8; } scripts.push((m, "byte")); },
                 3 => { let len = rng.below(40) as usize; let r: Vec<u8> = (0..len).map(|_| if rng.chance(1, 2) { 0 } else { rng.next_u64() as u8 }).collect(); scripts.push((r, "random")); },
+                4 => { let k = rng.below(m.len().max(1) as u64) as usize; m.truncate(k); for _ in 0..rng.below(12) { m.push(*rng.pick(&[0u8, 0xff, 8, 12, 20])); } scripts.push((m, "tail")); },
                 _ => { let k = rng.below(m.len().max(1) as u64) as usize; let e = (k + 1 + rng.below(12) as usize).min(m.len()); m.drain(k..e); scripts.push((m, "delete")); },
             }
         }
         for (s, kind) in scripts {
             let r = read_script_via(w, prefix, &s);
-            *hist.entry(format!("{}:{}:{}", w.fmt, kind, &r[..r.len().min(4)])).or_insert(0) += 1;
+            *hist.entry(format!("{}:{}:{}", w.fmt, kind, &r[..r.len().min(5)])).or_insert(0) += 1;
             println!("READ\tKRead {} {} {}\t{} {}", w.fmt, coq_bytes(&s), r, w.seed_name, kind);
         }
     }
     // (2) texture consistency: format x width x height x data length through extract
     if let Some(seed) = seeds.iter().find(|s| s.name == "th12-embedded-image-source.anm") {
         let b = &seed.bytes;
-        if let Some(&t) = find_all(b, b"THTX").get(0) {
+        // the last entry of the chain: its texture is the tail of the file
+        let mut epos = 0usize;
+        loop { let nx = get32(b, epos + 36) as usize; if nx == 0 || epos + nx + 64 > b.len() { break; } epos += nx; }
+        let tpos = epos + get32(b, epos + 28) as usize;
+        if let Some(&t) = Some(&tpos).filter(|&&t| t + 16 <= b.len() && &b[t..t + 4] == b"THTX") {
             let size0 = get32(b, t + 12) as usize;
+            let (ox, oy) = (get32(b, epos + 20) & 0xffff, get32(b, epos + 20) >> 16);   // offset_x, offset_y: u16 at 20, 22 of the entry header
             let xdir = work_dir("c16").join("corr-xout");
             let fmts = [1u32, 3, 5, 7, 0, 2, 9];
             let mut cases: Vec<(u32, u32, u32, usize)> = vec![];
             let (w0, h0) = (get32(b, t + 8) & 0xffff, get32(b, t + 10) & 0xffff);
             for &f in &fmts { for dw in [0i64, 1, -1] { for dl in [0i64, 1, -1, 2, -2, 4, -4] {
                 let bpp = match f { 1 => 4, 3 | 5 => 2, 7 => 1, _ => 4 } as i64;
-                let w = (w0 as i64 + dw).max(0) as u32;
+                let w = (w0 as i64 + dw).max(1) as u32;
                 let len = (bpp * w as i64 * h0 as i64 + dl).max(0) as usize;
-                cases.push((f, w, h0, len));
+                cases.push((f, w, h0.max(1), len));
             }}}
-            for _ in 0..n { cases.push((*rng.pick(&fmts), rng.below(6) as u32, rng.below(6) as u32, rng.below(80) as usize)); }
+            for _ in 0..n { cases.push((*rng.pick(&fmts), 1 + rng.below(6) as u32, 1 + rng.below(6) as u32, rng.below(120) as usize)); }
             for (f, w, h, len) in cases {
                 let mut m = b[..t + 16].to_vec();
                 put16(&mut m, t + 6, f); put16(&mut m, t + 8, w); put16(&mut m, t + 10, h); put32(&mut m, t + 12, len as u32);
@@ -594,10 +645,37 @@ fn corr(seeds: &[Seed], n: usize, rng: &mut Rng) {
                 let r = run_inproc(seed, &m, "extract", &[], &xdir);
                 let rs = match r { Ok(true) => "(IOk tt)", Ok(false) => "IErr", Err(_) => "IPanic" };
                 *hist.entry(format!("tex:{}", rs)).or_insert(0) += 1;
-                println!("TEX\tKTex {} {} {} {} {}\tfmt={} w={} h={} len={}", f, w, h, len, rs, f, w, h, len);
+                println!("TEX\tKTex {} {} {} {} {} {} {}\tfmt={} w={} h={} len={}\t{}", f, w, h, len, ox, oy, rs, f, w, h, len, hex(&m));
             }
         }
-    }
+    } else { println!("NOTE\ttexture seed missing"); }
+    // (3) the label pass: TH08 STD scripts of jumps and plain instructions, decompiled with a four-line mapfile
+    if let Some(seed) = seeds.iter().find(|s| s.name == "std08.g8.trustd.bin") {
+        let b = &seed.bytes; let start = get32(b, 8) as usize;
+        if start > 0 && start <= b.len() {
+            let prefix = &b[..start];
+            for _ in 0..n {
+                let cnt = rng.below(6) as usize;
+                let mut t = 0i32; let mut instrs: Vec<(i32, u16, [i32; 3])> = vec![];
+                for _ in 0..cnt {
+                    if rng.chance(1, 2) { t += rng.below(20) as i32; }
+                    let jump = rng.chance(1, 2);
+                    let target: i32 = match rng.below(10) {
+                        0..=5 => rng.below(cnt as u64 + 1) as i32,             // an instruction index (or the end)
+                        6 => cnt as i32 + 1 + rng.below(3) as i32,             // past the end
+                        7 => *rng.pick(&[0x1000_0000i32, 0x0CCC_CCCD, -1, i32::MIN, 0x0CCC_CCCC]),
+                        _ => rng.below(8) as i32,
+                    };
+                    let targ = if rng.chance(2, 3) { t } else { rng.range(-5, 60) as i32 };
+                    if jump { instrs.push((t, 4, [target, targ, 0])); } else { instrs.push((t, *rng.pick(&[0u16, 1]), [rng.below(9) as i32, 2, 3])); }
+                }
+                let r = run_lab(prefix, &instrs);
+                *hist.entry(format!("lab:{}", r)).or_insert(0) += 1;
+                let term = instrs.iter().map(|(t, op, a)| format!("({}, {}, [{}; {}; {}])", z(*t as i64), op, z(a[0] as i64), z(a[1] as i64), z(a[2] as i64))).collect::<Vec<_>>().join("; ");
+                println!("LAB\tKLab 1%nat [{}] {}\t{:?}", term, r, instrs);
+            }
+        }
+    } else { println!("NOTE\tstd08 seed missing"); }
     println!("STATS\tcorr\thist={:?}", hist);
 }
 
